@@ -15,7 +15,9 @@ RULE = ('Generated client generations: each opens 1-3 transports and runs a '
         'with callbacks never answered, call() timing out, leave_room / '
         'close_room on personal rooms (own and others\'), a disconnect '
         'handler closing the personal room, application calls on clients '
-        'that have already gone, binary events '
+        'that have already gone, an emit with callback to a room of two '
+        'whose first send is suspended while the other member\'s transport '
+        'ends, binary events '
         'whose attachments never all arrive, malformed frames, namespace '
         'disconnects) and then ends every transport by a generated cause; '
         'fault plan: the k-th invocation of a connect / event / disconnect '
@@ -75,6 +77,11 @@ def strategy(tier):
                                                  S.text_st(max_size=6))}),
         st.fixed_dictionaries({'op': st.just('cdisc'), 'c': ci}),
         st.fixed_dictionaries({'op': st.just('sdisc'), 'c': ci}),
+        # asyncio: an emit with callback to a room of two; the send to the
+        # first member is suspended, meanwhile the other member's transport
+        # ends, then the send completes
+        st.fixed_dictionaries({'op': st.just('group_cb_death'), 'c': ci,
+                               'd': ci}),
         # the application acts on a client of this generation that has
         # already gone (a handler that was suspended meanwhile)
         st.fixed_dictionaries({'op': st.just('late'), 'c': ci,
@@ -231,6 +238,46 @@ def _generation(case, w, st_):
             continue
         ci = lv[op['c'] % len(lv)]
         c = w.clients[ci]
+        if k == 'group_cb_death':
+            if not case['aio']:
+                continue
+            peers = [i for i in lv if i != ci and
+                     w.clients[i]['ns'] == c['ns'] and
+                     w.clients[i]['t'] != c['t']]
+            if not peers:
+                continue
+            d = w.clients[peers[op['d'] % len(peers)]]
+            w.do(sio.enter_room(c['sid'], 'grp', namespace=c['ns']))
+            w.do(sio.enter_room(d['sid'], 'grp', namespace=c['ns']))
+            loop = w.h.loop
+            parked = []
+            real_send = sio.eio.send_packet
+
+            async def gated(sid_, pkt):
+                if not parked:
+                    fut = loop.create_future()
+                    parked.append(fut)
+                    await fut
+                return await real_send(sid_, pkt)
+            sio.eio.send_packet = gated
+            try:
+                task = loop.spawn(sio.emit('q', 1, to='grp',
+                                           namespace=c['ns'],
+                                           callback=lambda *a: None))
+                loop.run_until_idle()
+                if w.t_alive[d['t']]:
+                    w.lose(d['t'], reasons[0])
+                if parked and not parked[0].done():
+                    parked[0].set_result(None)
+                loop.run_until_idle()
+            finally:
+                sio.eio.send_packet = real_send
+            if not task.done():
+                raise Violation('emit-never-finishes', '')
+            flags.add('unanswered_callback')
+            flags.add('recipient_died_during_callback_emit')
+            w.h.settle()
+            continue
         if k == 'enter':
             w.do(sio.enter_room(c['sid'], op['room'], namespace=c['ns']))
         elif k == 'leave':
